@@ -2,7 +2,7 @@
    Property theorems only; proofs are in ProofC06.v.  Time is the clock of the scripted transport:
    it advances only inside ChannelIO.read and time.sleep (the interpreter's own latency is not
    modelled -- the claim is partial in that sense, see DESIGN.md). *)
-From TV Require Import Base BaseLemmas Utf8 Regex Channel ChannelLemmas ProofC02 ProofC03 ProofC06.
+From TV Require Import Base BaseLemmas Utf8 Regex Channel ChannelLemmas ProofC02 ProofC03 ProofC06 SubIO ProofC06b.
 
 (* every operation called at time now with timeout T >= 0: has returned or raised by now + T,
    raises TimeoutError exactly AT now + T (never before), however the data trickles in *)
@@ -99,3 +99,24 @@ Theorem C06_iteration_deadline_invariant :
   r <> SBlocked.
 Proof. exact iter_step_time. Qed.
 Print Assumptions C06_iteration_deadline_invariant.
+
+(* ---- the transport itself: SubprocessChannelIO.read's select loop (unit 1/5120 s) ---- *)
+(* called with timeout T > 0 on a live process: the data is returned the moment it becomes readable, also when that
+   is exactly the deadline; TimeoutError is raised exactly at T and only if nothing became readable by then; the
+   exit of the process is noticed no later than T; the loop always ends *)
+Theorem C06_subprocess_read_deadline :
+  forall T now ready dies,
+  (0 < T)%Z -> is_closed dies now = false ->
+  match sub_read (fuel_for (Some T) now ready dies) (Some T) now ready dies with
+  | SRead t => exists a, ready = Some a /\ (a <= now + T)%Z /\ t = Z.max now a
+  | STimeoutAt t => t = (now + T)%Z /\ (forall a, ready = Some a -> (now + T < a)%Z)
+  | SClosedAt t => (t <= now + T)%Z /\ (forall a, ready = Some a -> (t < a)%Z)
+  | SNoData _ | SFuel => False
+  end.
+Proof. exact sub_read_deadline. Qed.
+Print Assumptions C06_subprocess_read_deadline.
+
+Theorem C06_subprocess_read_no_timeout_without_deadline :
+  forall fuel now ready dies t, sub_read fuel None now ready dies <> STimeoutAt t.
+Proof. exact sub_read_no_timeout. Qed.
+Print Assumptions C06_subprocess_read_no_timeout_without_deadline.
